@@ -69,7 +69,7 @@ def run(pid, tier):
         "evaluations": agg["transitions"] + agg.get("param_transitions", 0) + int(extra.get("resets", 0)) + int(extra.get("steps", 0)),
         "distinct_nontrivial": int(agg["nontrivial"].get(pid, 0)),
         "rule": RULES[pid],
-        "samples": samples,
+        "samples": rotate(agg.get("transition_samples", []), 2) + samples,
         "exhaustive": not agg["capped_scenarios"],
         "scenarios": agg["scenarios"],
         "capped_scenarios": agg["capped_scenarios"],
